@@ -2,7 +2,7 @@
     distinctness of random UUIDs are properties of the runtime: race detector and ID multiset in the harness -- partial).
     Threads are programs over atomic storage operations (the storage contract), interleaved under an arbitrary schedule. *)
 From Saml Require Import Base.Bytes Idp.FactTypes Gen.Facts Idp.Sso Idp.Callback Idp.AttrQuery Idp.Logout Conc.Interleave Conc.Handlers
-  Proofs.SsoProofs Proofs.SsoAccept Proofs.SsoLocal Proofs.AttrLocal Conc.SsoProg Core.NewID.
+  Proofs.SsoProofs Proofs.SsoAccept Proofs.SsoLocal Proofs.AttrLocal Conc.SsoProg Conc.Mixed Core.NewID.
 From Coq Require Import List. Import ListNotations.
 
 (** every schedule, any number of threads that only read: a finished thread's result is its result alone on the initial storage *)
@@ -96,6 +96,21 @@ Proof. exact new_id_legal. Qed.
 Theorem C15_id_source : newid_src = [("return", "fmt.Sprintf(""_%s"", uuid.New())")]%string.
 Proof. exact new_id_from_source. Qed.
 
+(** SSO requests and login callbacks in one pool, every schedule: a callback for a request that existed before the run is
+    answered exactly as alone on the initial storage, although the SSO threads create records all the while *)
+Theorem C15_callbacks_among_sso : forall decode verify_redirect verify_post instant_of now want_signed sso_locs entity_id fresh,
+  (forall m n, fresh m = fresh n -> m = n) ->
+  forall (forms : list (option form)) (cbs : list (bool * bytes * bool)) (s0 : store val) (sched : schedule),
+  (forall r, In r cbs -> old_key fresh (next val s0) (snd (fst r))) ->
+  forall j fo id so a, nth_error cbs j = Some (fo, id, so) ->
+    result val (length forms + j)
+      (fst (run_sched val fresh sched (map (sso_t decode verify_redirect verify_post instant_of now want_signed sso_locs entity_id sso_steps) forms ++ map cb_t cbs, s0))) = Some a ->
+    a = inr (cb fo id (L_of s0) (A_of s0) (U_of s0) (C_of s0) so).
+Proof.
+  intros decode verify_redirect verify_post instant_of now want_signed sso_locs entity_id fresh Hinj forms cbs s0 sched.
+  exact (callbacks_among_sso decode verify_redirect verify_post instant_of now want_signed sso_locs entity_id fresh Hinj sso_steps forms cbs s0 sched).
+Qed.
+
 Print Assumptions C15_isolation.
 Print Assumptions C15_non_interference.
 Print Assumptions C15_ids_distinct.
@@ -109,3 +124,4 @@ Print Assumptions C15_sso_program.
 Print Assumptions C15_concurrent_sso.
 Print Assumptions C15_id_legal.
 Print Assumptions C15_id_source.
+Print Assumptions C15_callbacks_among_sso.
